@@ -659,6 +659,12 @@ func (w *Writer) writeSelect(s ir.ExprSelect) (string, error) {
 	if err != nil {
 		return "", err
 	}
+	// GLSL's ?: needs a scalar bool. A component-wise select is mix() with a
+	// bvec selector, which picks its first operand where the condition is
+	// false (matches Rust naga).
+	if _, isVec := w.getExprVectorSize(s.Condition); isVec {
+		return fmt.Sprintf("mix(%s, %s, %s)", reject, accept, condition), nil
+	}
 	return fmt.Sprintf("(%s ? %s : %s)", condition, accept, reject), nil
 }
 
